@@ -578,7 +578,46 @@ def r39(orig, rule):
     return 'let mut %s: %s = { let mut __v = Vec::new(); for __i in 0..%s { __v.push(%s); } __v };' % (x, ty, n, v)
 
 
+def r40(orig, rule):
+    # assert!(X.iter().all(|&A| P), MSG);   ->  for A in X.iter() { let A = *A; assert!(P); }
+    #   (the assertion holds iff P holds of every element; which failing element panics first is not observable)
+    s = norm(orig)
+    m = _m(r'assert ! \( (.+?) \. iter \( \) \. all \( \| & (%s) \| (.+?) \) , [\s\S]* \) ;' % ID, s)
+    x, a, pred = m.groups()
+    return 'for %s in %s.iter() { let %s = *%s; assert!(%s); }' % (a, x, a, a, pred)
+
+
+def r41(orig, rule):
+    # X.iter().fold(INIT, |ACC, &A| E)   (tail expression; accumulator type T from the rule argument)
+    #   ->  let mut ACC: T = INIT; for A in X.iter() { let A = *A; ACC = E; } ACC
+    s = norm(orig)
+    ty = rule.split(None, 1)[1]
+    m = _m(r'(.+?) \. iter \( \) \. fold \( (.+?) , \| (%s) , & (%s) \| (.+) \)' % (ID, ID), s)
+    x, init, acc, a, e = m.groups()
+    return 'let mut %s: %s = %s; for %s in %s.iter() { let %s = *%s; %s = %s; } %s' % (acc, ty, init, a, x, a, a, acc, e, acc)
+
+
+def r42(orig, rule):
+    # F(&E)  with a call expression E as the borrowed argument   ->  { let NAME = E; F(&NAME); }     (NAME from the rule argument;
+    #   names the temporary so that a proof block can talk about it; anything before/after the call on the line is kept)
+    s = norm(orig)
+    name = rule.split()[1]
+    m = _m(r'(.*?)((?:%s \. )*%s) \( & (.+ \)) \)(.*)' % (ID, ID), s)
+    pre, f, e, post = m.groups()
+    return '%s{ let %s = %s; %s(&%s); }%s' % (pre, name, e, f, name, post)
+
+
+def r43(orig, rule):
+    # std::uN::MAX  ->  uN::MAX        (the legacy module constant and the associated constant are the same value)
+    s = norm(orig)
+    out, n = re.subn(r'std :: (u8|u16|u32|u64|usize) :: MAX', r'\1::MAX', s)
+    if n == 0:
+        raise NoMatch('no std::uN::MAX')
+    return out
+
+
 GENERATORS = {
+    'R40': r40, 'R41': r41, 'R42': r42, 'R43': r43,
     'R39': r39,
     'R34': r34, 'R35': r35, 'R35t': r35t, 'R36': r36, 'R37': r37,
     'R33': r33,
